@@ -3,6 +3,7 @@ From Coq Require Import List String.
 From VQ.Gen Require Import pat_vq_split.
 Import ListNotations.
 Open Scope string_scope.
-Lemma pin_pat_vq_split : pat_vq_split =
+Definition pinned_pat_vq_split : list (string * string) :=
   [("rearrange", "f'b n (h d) -> {ein_rhs_eq}'")].
+Lemma pin_pat_vq_split : pat_vq_split = pinned_pat_vq_split.
 Proof. reflexivity. Qed.
